@@ -7,6 +7,7 @@ From Coq Require Import List Arith Bool Lia.
 From RecordUpdate Require Import RecordSet.
 From SV Require Import Base.Base IR.State IR.NS IR.Ops Xform.Clone Xform.Strs Xform.Xform
   Proofs.Frame Proofs.Inv1a Proofs.Inv2a Proofs.InvW Proofs.C01_full Proofs.Fresh Proofs.NsInv Proofs.CloneInv Proofs.RefK Proofs.CloneRef Proofs.CloneT.
+From SV Require Import Proofs.UniqFresh.
 Import ListNotations RecordSetNotations.
 
 Definition UI (s : state) : Prop := Inv1a s /\ Inv2a s /\ Fresh s /\ RefK s /\ InvT s.
@@ -42,13 +43,11 @@ Proof.
   destruct (clone_definition (st x) d) as [r d']. cbn [fst snd] in HI, HF, HR, HTc.
   apply up_liftR; [intro Hok; destruct (HR Hok) as [HR1 HR2]; split; [apply HI; exact Hok|split; [exact HR1|split; [apply HF; exact Hok|split; [exact HR2|apply HTc; exact Hok]]]]|].
   intros x1 U1.
-  set (named := match get_str (st x1) d str_NAME with Some nm => _ | None => _ end).
+  set (named := rename_block x1 lib d d').
   assert (Hn : UP named).
-  { unfold named. destruct (get_str (st x1) d str_NAME) as [nm|]; [|intros _; exact U1].
-    cbv zeta. destruct (fresh_ctr _ _ _ _ _ _) as [k|]; [|intro H; discriminate].
-    apply (up_dict_set (mkX (st x1) (S k) (flat_ctr x1))); [exact U1|]. intros x3 U3.
-    destruct (get_str (st x3) d' str_IDENT) as [idv|]; [|intros _; exact U3].
-    apply up_dict_set; [exact U3|]. intros x4 U4 _. exact U4. }
+  { unfold UP. destruct named as [x5 e] eqn:Eb. cbn [fst snd]. intros ->.
+    apply (rename_block_post UI x1 lib d d' x5 U1); [|exact Eb].
+    intros s0 k0 v0 _ H0 _. eapply ui_struct; [apply se_dict_set|exact H0]. }
   destruct named as [x5 [e|]]; [intro H; discriminate|].
   assert (U5 : UI (st x5)) by (apply Hn; reflexivity).
   apply up_liftR.
